@@ -181,7 +181,11 @@ class C16(Prop):
                 if ks and rng.random() < 0.3:
                     ks = ks + [rng.choice(ks)]       # a repeated key
                     rng.shuffle(ks)
+                if rng.random() < 0.03:
+                    ks = ks + [b"mk%03d" % j for j in range(rng.randint(101, 160))]   # more than a hundred keys
                 a = [E(ks)]
+                if rng.random() < 0.2:
+                    a = [{"$iter": [E(x) for x in ks]}]      # a one-shot iterator of keys
             elif m == "set_many":
                 a = [E({kk: value() for kk in rng.sample(keys, rng.randint(1, 3))})]
                 store_args(a, k)
@@ -193,7 +197,8 @@ class C16(Prop):
                 elif r < 0.6:
                     k["noreply"] = rng.choice([True, False, None])
             elif m == "delete_many":
-                a = [E(rng.sample(keys, rng.randint(0, 3)))]
+                dk = rng.sample(keys, rng.randint(0, 3))
+                a = [E(dk)] if rng.random() < 0.8 else [{"$iter": [E(x) for x in dk]}]
                 if rng.random() < 0.5:
                     k["noreply"] = rng.choice([True, False])
             elif m in ("incr", "decr"):
